@@ -181,6 +181,9 @@ type harness struct {
 	mu        sync.Mutex // std mutex: never held across a sleep or blocking call
 	seq       int64
 	frozen    bool
+	lagGate   chan struct{} // lagBurst: readers wait here before taking the next event
+	lagOn     bool          // lagBurst: readers record what they take in lagSeen
+	lagSeen   []channel.AdjudicatorEvent
 	completed bool
 	ch        [nChans]*chState
 	evs       []*evRec
@@ -514,8 +517,22 @@ func (h *harness) doStart(i int, st *kernel.Step, k int) {
 // k (the pub-sub buffer holds 10 events; a full buffer would block the
 // watcher's handler).
 func (h *harness) reader(k int, ep *epoch, sub watcher.AdjudicatorSub) {
-	for e := range sub.EventStream() {
+	for {
+		// a lagging client (epilogue lagBurst) does not read for a while
 		h.mu.Lock()
+		gate := h.lagGate
+		h.mu.Unlock()
+		if gate != nil {
+			<-gate
+		}
+		e, ok := <-sub.EventStream()
+		if !ok {
+			break
+		}
+		h.mu.Lock()
+		if h.lagOn {
+			h.lagSeen = append(h.lagSeen, e)
+		}
 		if !h.frozen {
 			ep.relays = append(ep.relays, relayRec{obj: e, t: h.tick(chName(k), "relay", fmt.Sprintf("%T v%d", e, e.Version()))})
 			h.snapshot()
@@ -861,6 +878,9 @@ func runScenario(t *testing.T, sc *kernel.Scenario, trace bool) *kernel.Result {
 			// reported only if no oracle explains it (first violation wins)
 			s.Fail("C05.no-quiescence", "the watcher was still producing observable events 2 simulated seconds after the last action")
 		}
+		if sc.Cfg("lag_burst", 0) == 1 && !s.Failed() {
+			h.lagBurst()
+		}
 		if sc.Cfg("race_start_stop", 0) == 1 && !s.Failed() {
 			h.raceStartStop()
 		}
@@ -887,6 +907,75 @@ func runScenario(t *testing.T, sc *kernel.Scenario, trace bool) *kernel.Result {
 		}
 	}
 	return res
+}
+
+// lagBurst is an epilogue outside the modelled history: the client stops
+// reading its event stream for a while (a real client's event loop waits for
+// the channel's machine lock), and meanwhile the adjudicator reports more
+// progressed events than the watcher buffers, then a concluded one. Progressed
+// and concluded events are always relayed: once the client reads again it
+// must get every one of them, in order.
+func (h *harness) lagBurst() {
+	h.mu.Lock()
+	ok := h.ch[0].watched && h.ch[0].stopInFlight == 0
+	sub := h.a.sub(0)
+	base := h.ch[0].next + 100
+	h.frozen = true
+	var gate chan struct{}
+	if ok && sub != nil && !sub.isClosed() {
+		gate = make(chan struct{})
+		h.lagGate, h.lagOn = gate, true
+	}
+	h.mu.Unlock()
+	if gate == nil {
+		h.s.Count("probe.lag_burst_not_applicable", 1)
+		return
+	}
+	h.s.Count("fault.lagging_client_event_burst", 1)
+	time.Sleep(time.Millisecond) // the readers reach the gate (one that was already waiting for an event takes one more)
+	n := 13 + int(h.s.Delay(h.key("lag:n"), 0, 3*time.Microsecond)/time.Microsecond)
+	var burst []channel.AdjudicatorEvent
+	for i := 0; i <= n; i++ {
+		v := base + uint64(i)
+		var obj channel.AdjudicatorEvent = channel.NewProgressedEvent(staticIDs[0], &channel.ElapsedTimeout{}, mkTx(0, v, nil).State, 0)
+		if i == n {
+			obj = channel.NewConcludedEvent(staticIDs[0], &channel.ElapsedTimeout{}, v)
+		}
+		burst = append(burst, obj)
+		select {
+		case sub.events <- obj:
+		default:
+			panic("watcher engine: subscription queue overflow")
+		}
+		time.Sleep(h.s.Delay(h.key(fmt.Sprintf("lag:gap:%d", i)), 0, 20*time.Microsecond))
+	}
+	time.Sleep(20 * time.Millisecond) // the watcher has filled its buffer and waits
+	h.mu.Lock()
+	h.lagGate = nil
+	h.mu.Unlock()
+	close(gate)
+	time.Sleep(100 * time.Millisecond)
+	h.mu.Lock()
+	var got []channel.AdjudicatorEvent
+	for _, e := range h.lagSeen {
+		for _, b := range burst {
+			if e == b {
+				got = append(got, e)
+			}
+		}
+	}
+	h.lagOn = false
+	h.mu.Unlock()
+	if len(got) != len(burst) {
+		h.s.Fail("C05.relay-missing@lagging-client", "the adjudicator reported %d progressed events and a concluded event while the client was not reading; after it read again it got only %d of the %d events", n, len(got), len(burst))
+		return
+	}
+	for i := range burst {
+		if got[i] != burst[i] {
+			h.s.Fail("C05.relay-order@lagging-client", "events reported while the client was not reading reached it in another order (position %d)", i)
+			return
+		}
+	}
 }
 
 // raceStartStop is an epilogue outside the modelled history: with the ledger
